@@ -361,7 +361,11 @@ func (e *FieldAccessExpr) Check(ctx *CheckCtx) error {
 		if leftIsFAE {
 			// Support cascade field access such as:
 			// json(value)['x']['y']
-			return nil
+			switch e.FieldName.(type) {
+			case *StringExpr, *NumberExpr:
+				return nil
+			}
+			return NewSyntaxError(e.FieldName.GetPos(), "Invalid field name")
 		}
 		return NewSyntaxError(e.Left.GetPos(), "Field access expression left require JSON or List type")
 	}
